@@ -361,10 +361,19 @@ func coarse(class string) string {
 
 // deliverAndExercise sends one encoded error over the simulated transport
 // to a knowing process and checks totality there.
+// c05Receiver, if set, is the profile of the receiving process of the next
+// delivery (consumed by deliverAndExercise).
+var c05Receiver *world.Profile
+
 func deliverAndExercise(t *tape.Tape, res *Result, enc *errorspb.EncodedError, culprit, config, where string) {
 	sim := world.NewSim(t)
 	sim.AddProcess(world.Full())
-	sim.AddProcess(world.Full())
+	if c05Receiver != nil {
+		sim.AddProcess(c05Receiver)
+		c05Receiver = nil
+	} else {
+		sim.AddProcess(world.Full())
+	}
 	sim.DupNum = 0
 	sim.MaxDelay = 1
 	data, err := enc.Marshal()
@@ -559,6 +568,24 @@ func (c05) runSeeded(t *tape.Tape, tier Tier) *Result {
 			} else {
 				res.count("fuzz-rejected-unmarshal", 1)
 			}
+		}
+	}
+	// a receiver that has unregistered one of the message's decoders through
+	// the public API (Register*Decoder(key, nil)), as a program does that
+	// wants a type kept opaque
+	if t.Bool(1, 12) {
+		fams := familiesOf(data)
+		if len(fams) > 0 {
+			key := errors.TypeKey(fams[t.Draw(len(fams))])
+			world.Full().Install()
+			errors.RegisterLeafDecoder(key, nil)
+			errors.RegisterWrapperDecoder(key, nil)
+			errors.RegisterMultiCauseDecoder(key, nil)
+			c05Receiver = &world.Profile{Name: "unregistered[" + world.ShortKey(string(key)) + "]", Reg: errbase.VerifSnapshotRegistries(), Unknown: map[string]bool{string(key): true}}
+			world.Full().Install()
+			f := "decoder=unregistered-through-api"
+			res.Stats.Faults[f]++
+			res.Desc.Faults = append(res.Desc.Faults, f+"("+world.ShortKey(string(key))+")")
 		}
 	}
 	sort.Strings(res.Desc.Faults)
